@@ -17,8 +17,8 @@ that (transitively) reads it" on the generated tables.
 import ast
 import os
 
-from harness.translate import TranslateError, parse_file
-from harness.gen._effects import Analyzer, lean_module
+from harness.translate import parse_file
+from harness.gen._effects import Analyzer, TranslateError, lean_module, selftest
 
 SRC = 'pyphysim/channels/multiuser.py'
 CLASSES = ['MultiUserChannelMatrix', 'MultiUserChannelMatrixExtInt']
@@ -37,6 +37,7 @@ def analyse(repo):
 
 
 def gen(repo):
+    selftest()
     an, rows = analyse(repo)
     return lean_module('PyPhysim.Generated.C08Effects', SRC + ' (MultiUserChannelMatrix, MultiUserChannelMatrixExtInt)',
                        CLASSES, an, rows)
